@@ -412,6 +412,54 @@ def check_weight_invariant(eng, res, rule="R-WEIGHT-INVARIANT"):
     return n
 
 
+def units_all(eng, res, rule="R-UNITS-ALL"):
+    """Every unit written in a stochastic object is a candidate, as often as it is written and in the order written: the
+    constructor's two token loops run over the comma split of the repeat / end text itself — no de-duplication,
+    re-ordering, filtering or slicing (the descriptor numbers of transition lists count the written units)."""
+    res.doc(rule, "repeat units and end groups are taken one per written item, in written order (no de-duplication / filter)")
+    fi = eng.prog.func("stochastic.Stochastic.__init__")
+    res.unit(fi)
+    fl = eng.flow(fi)
+    cfg = fl.cfg
+    n = 0
+    BAD = {"set", "frozenset", "fromkeys", "sorted", "unique", "filter", "reversed", "Counter", "OrderedDict", "dict"}
+    for lp in own_nodes(fi.node):
+        if not isinstance(lp, ast.For):
+            continue
+        toks = [c for c in ast.walk(lp) if isinstance(c, ast.Call) and callee_name(c) == "SmilesToken"]
+        if not toks or any(isinstance(x, ast.For) and x is not lp and any(t in list(ast.walk(x)) for t in toks) for x in ast.walk(lp)):
+            continue
+        n += 1
+        it = fl.expand(lp.iter, cfg._foriter[id(lp)], depth=2)
+        txt = src(it)
+        calls_ = [callee_name(c) for c in ast.walk(it) if isinstance(c, ast.Call)]
+        split = [c for c in ast.walk(it) if isinstance(c, ast.Call) and callee_name(c) == "split" and c.args and isinstance(c.args[0], ast.Constant) and c.args[0].value == ","]
+        sliced = any(isinstance(x, ast.Subscript) and any(y in split for y in ast.walk(x.value)) for x in ast.walk(it))
+        filt = [g for c in ast.walk(it) if isinstance(c, (ast.GeneratorExp, ast.ListComp)) for g in c.generators if g.ifs]
+        bad = sorted(set(calls_) & BAD)
+        ok = len(split) == 1 and not bad and not sliced and not filt
+        res.ob(rule, fi, f"units-loop@{n}", "the token loop runs over every item of the comma split of the written text, once each, in order", lp, ok,
+               f"iterates {txt[:100]}" + (f"; uses {bad}" if bad else "") + ("; sliced" if sliced else "") + ("; filtered" if filt else ""))
+        # and every non-empty item becomes a token: the constructor call is guarded by the item's non-emptiness only
+        from ..lits import lits
+        g = set()
+        for t, pol in cfg.guard_exprs(cfg.node_of(toks[0])):
+            st = getattr(t, "_parent", None)
+            if isinstance(st, ast.If) and within_node(st, lp):
+                g |= set(lits(t, pol))
+        okg = all(l[0] not in ("num", "complex", "opaque", "const") and l[0][0] == "truthy" and l[1] is True for l in g) and len(g) <= 1
+        res.ob(rule, fi, f"units-guard@{n}", "every non-empty item becomes a token (no other condition)", toks[0], okg, f"{len(g)} condition(s)")
+    res.floor(rule, n, 2)
+
+
+def within_node(n, anc):
+    while n is not None:
+        if n is anc:
+            return True
+        n = getattr(n, "_parent", None)
+    return False
+
+
 def check(eng, res):
     res.doc("R-CHOICE-P", "every rng.choice on the generation path passes p=, p being a vector divided by its own sum")
     res.doc("R-WEIGHT-PARALLEL", "candidates and weights produced by the same traversal; only the equal-weights rule in between")
@@ -441,5 +489,6 @@ def check(eng, res):
     res.obligations += sub.obligations
     nw = check_weight_invariant(eng, res)
     res.floor("R-WEIGHT-INVARIANT", nw, 2)
+    units_all(eng, res)
     res.assumptions += ["numpy Generator.choice(a, p=p) draws a[i] with probability p[i]", "R-WEIGHT-DEF (C02) and R-LOCKSTEP (C04) hold"]
     res.not_decided += ["the resulting molecule probabilities", "long-run frequencies"]
